@@ -111,7 +111,7 @@ def worker(args) -> Dict[str, Any]:
             findings.append({"id": r["id"], "kind": "driver-error", "text": [o["error"][:300]], "record": r})
         elif o.get("diff"):
             findings.append({"id": r["id"], "kind": "diff", "text": o["diff"][:8], "record": r})
-        elif o.get("mon"):
+        if "error" not in o and o.get("mon"):
             findings.append({"id": r["id"], "kind": "mon", "text": o["mon"][:8], "record": r})
     return {"n": len(recs), "findings": fw.pick(findings, 20), "n_findings": len(findings), "shapes": sorted(shapes),
             "skipped": skipped, "sample": {k: recs[0][k] for k in ("route", "dt", "kind")}}
